@@ -22,7 +22,8 @@
 #include <memory>
 using namespace vf;
 const char *vf::PROPERTY = "C20";
-void vf::harness_init() {}
+static void bench_fork();
+void vf::harness_init() { if (getenv("C20_BENCH")) bench_fork(); }
 
 typedef CallasDonnerhackeFinneyShawThayerRFC4880 PGP;
 typedef tmcg_openpgp_octets_t Oct;
@@ -228,7 +229,7 @@ static Region key_region(const Oct &in, const Span &s, size_t pos) {
 // A sanitizer report costs seconds (symbolizer); inside a fault child only the fact of the death matters.
 // The fault loops allocate and free small buffers millions of times; with the default 256 MiB quarantine every allocation touches
 // fresh pages (half of the run time was page-fault handling).  Memory-safety of the decoder is the business of C12, not of this check.
-extern "C" const char *__asan_default_options() { return "quarantine_size_mb=8:thread_local_quarantine_size_kb=256:malloc_context_size=2:allocator_release_to_os_interval_ms=-1"; }
+extern "C" const char *__asan_default_options() { return "quarantine_size_mb=1:thread_local_quarantine_size_kb=64:malloc_context_size=2:allocator_release_to_os_interval_ms=-1"; }
 static volatile int g_in_child = 0;
 extern "C" void __asan_on_error() { if (g_in_child) _exit(86); }
 extern "C" void __ubsan_on_report() { if (g_in_child) _exit(87); }
@@ -390,7 +391,7 @@ static std::string at(size_t pos, unsigned char mask, Region r) { char b[96]; sn
 static bool write_file(const std::string &p, const Oct &d) { std::ofstream f(p, std::ios::binary); if (!f) return false; f.write((const char *)d.data(), d.size()); return (bool)f; }
 
 // =========================================================================== (1) document signatures
-VF_SUB(sig_document_roundtrip_and_flips, 220, 9000) {
+VF_SUB(sig_document_roundtrip_and_flips, 130, 9000) {
   PGP::MemoryGuardReset();
   std::vector<Key *> sk = signing_keys(); Key &k = *sk[ctx.c.index(sk.size())];
   tmcg_openpgp_hashalgo_t h = pick_hash(ctx, k, true);
@@ -447,23 +448,32 @@ VF_SUB(sig_document_roundtrip_and_flips, 220, 9000) {
   if (ctx.failed) return;
   int64_t faults = 0;
 
-  // ---- negative A: every byte of the signature packet (forked: mutated bytes reach the parser)
+  // ---- negative A + C: every byte of the signature packet, and the key packet (one forked batch: mutated bytes reach the parsers, and
+  //      libgcrypt is not robust against malformed key parameters)
   {
-    std::vector<Span> sp; if (!split_packets(S.pkt, sp) || sp.size() != 1 || sp[0].tag != 2) { ctx.fail("sig/" + A + "/packet-framing-unexpected", hexs(S.pkt, 40)); return; }
+    std::vector<Span> sp, kp; if (!split_packets(S.pkt, sp) || sp.size() != 1 || sp[0].tag != 2) { ctx.fail("sig/" + A + "/packet-framing-unexpected", hexs(S.pkt, 40)); return; }
+    if (!split_packets(pubpkt, kp) || kp.size() != 1 || kp[0].tag != 6) { ctx.fail("key/" + A + "/packet-framing-unexpected", hexs(pubpkt, 40)); return; }
     FlipPlan P = plan_flips(ctx, S.pkt.size(), ctx.thorough ? 1200 : 600);
-    thin(P, [&](size_t pos) { Region r = sig_region(S.pkt, sp[0], pos); return r == R_MPIVAL || r == R_MPIBITS || r == R_UNHASHED || r == R_ULEN; }, pk_budget(ctx, k, 1500), ctx.c.raw64());
-    auto mutated = [&](size_t i) { Oct m = S.pkt; m[P.pos[i]] ^= P.mask[i]; return m; };
-    auto res = run_forked(ctx, P.pos.size(), [&](size_t i) -> unsigned char {
-      Oct m = mutated(i); TMCG_OpenPGP_Signature *s = nullptr; if (!PGP::SignatureParse(m, 0, s)) return 0;
-      bool ok = s->Good() && s->VerifyData(vkey, data, 0); delete s; return ok ? 1 : 0; }, mutated, "sig");
+    thin(P, [&](size_t pos) { Region r = sig_region(S.pkt, sp[0], pos); return r == R_MPIVAL || r == R_MPIBITS || r == R_UNHASHED || r == R_ULEN; }, pk_budget(ctx, k, 1000), ctx.c.raw64());
+    FlipPlan K = plan_flips(ctx, pubpkt.size(), 100000);
+    thin(K, [&](size_t) { return true; }, std::min<size_t>(pk_budget(ctx, k, 500), ctx.thorough ? 600 : 200), ctx.c.raw64());
+    size_t ns = P.pos.size(), nk = K.pos.size();
+    auto mutated = [&](size_t i) { if (i < ns) { Oct m = S.pkt; m[P.pos[i]] ^= P.mask[i]; return m; } Oct m = pubpkt; m[K.pos[i - ns]] ^= K.mask[i - ns]; return m; };
+    auto res = run_forked(ctx, ns + nk, [&](size_t i) -> unsigned char {
+      Oct m = mutated(i);
+      if (i < ns) { TMCG_OpenPGP_Signature *s = nullptr; if (!PGP::SignatureParse(m, 0, s)) return 0; bool ok = s->Good() && s->VerifyData(vkey, data, 0); delete s; return ok ? 1 : 0; }
+      TMCG_OpenPGP_Pubkey *pk = nullptr; if (!PGP::PublicKeyBlockParse(m, 0, pk)) return 0; bool ok = pk->Good() && sig->VerifyData(pk->key, data, 0); delete pk; return ok ? 1 : 0; }, mutated, "sig-or-key");
     for (size_t i = 0; i < res.size(); i++) {
-      Region r = sig_region(S.pkt, sp[0], P.pos[i]); faults++;
-      if (res[i] == 1) {
+      faults++; if (res[i] != 1) continue;
+      if (i < ns) { Region r = sig_region(S.pkt, sp[0], P.pos[i]);
         if (region_protected(r)) { if (!ctx.fail("sig/" + A + "/flipped-" + region_name(r) + "-accepted", "signature packet with one flipped byte verified: " + at(P.pos[i], P.mask[i], r) + " " + d.str() + " sig=" + hexs(S.pkt, 700))) break; }
-        else ctx.count(std::string("accepted_unprotected:") + region_name(r));
-      }
+        else ctx.count(std::string("accepted_unprotected:") + region_name(r)); }
+      else { size_t j = i - ns; Region r = key_region(pubpkt, kp[0], K.pos[j]);
+        if (region_protected(r, false)) { if (!ctx.fail("sig/" + A + "/flipped-key-accepted", "signature verified with an altered key: " + at(K.pos[j], K.mask[j], r) + " " + d.str() + " key=" + hexs(pubpkt, 700))) break; }
+        else ctx.count(std::string("accepted_unprotected:") + region_name(r)); }
     }
-    ctx.count("sig_packet_faults", (int64_t)res.size());
+    ctx.count("sig_packet_faults", (int64_t)ns); ctx.count("key_faults", (int64_t)nk);
+    for (auto o : sk) if (o != &k && o->algo == k.algo) { faults++; if (sig->VerifyData(o->pub, data, 0)) ctx.fail("sig/" + A + "/other-key-accepted", d.str() + " verified with " + o->name); }
   }
   // ---- negative B: the signed document (no parser on mutated bytes: in-process)
   if (!ctx.failed) {
@@ -478,32 +488,12 @@ VF_SUB(sig_document_roundtrip_and_flips, 220, 9000) {
     if (!data.empty()) { Oct m(data.begin(), data.end() - 1); bool equiv = text && to_crlf(m) == to_crlf(data); n++; if (!equiv && sig->VerifyData(vkey, m, 0)) ctx.fail("sig/" + A + "/truncated-document-accepted", d.str()); }
     faults += (int64_t)n; ctx.count("document_faults", (int64_t)n);
   }
-  // ---- negative C: the key packet (forked: parser, and libgcrypt is not robust against malformed key parameters)
-  if (!ctx.failed) {
-    std::vector<Span> sp; if (!split_packets(pubpkt, sp) || sp.size() != 1 || sp[0].tag != 6) { ctx.fail("key/" + A + "/packet-framing-unexpected", hexs(pubpkt, 40)); return; }
-    FlipPlan P = plan_flips(ctx, pubpkt.size(), 100000);
-    thin(P, [&](size_t) { return true; }, std::min<size_t>(pk_budget(ctx, k, 700), ctx.thorough ? 600 : 300), ctx.c.raw64());
-    auto mutated = [&](size_t i) { Oct m = pubpkt; m[P.pos[i]] ^= P.mask[i]; return m; };
-    auto res = run_forked(ctx, P.pos.size(), [&](size_t i) -> unsigned char {
-      Oct m = mutated(i); TMCG_OpenPGP_Pubkey *pk = nullptr; if (!PGP::PublicKeyBlockParse(m, 0, pk)) return 0;
-      bool ok = pk->Good() && sig->VerifyData(pk->key, data, 0); delete pk; return ok ? 1 : 0; }, mutated, "key");
-    for (size_t i = 0; i < res.size(); i++) {
-      Region r = key_region(pubpkt, sp[0], P.pos[i]); faults++;
-      if (res[i] == 1) {
-        if (region_protected(r, false)) { if (!ctx.fail("sig/" + A + "/flipped-key-accepted", "signature verified with an altered key: " + at(P.pos[i], P.mask[i], r) + " " + d.str() + " key=" + hexs(pubpkt, 700))) break; }
-        else ctx.count(std::string("accepted_unprotected:") + region_name(r));
-      }
-    }
-    size_t n = res.size();
-    for (auto o : sk) if (o != &k && o->algo == k.algo) { n++; faults++; if (sig->VerifyData(o->pub, data, 0)) ctx.fail("sig/" + A + "/other-key-accepted", d.str() + " verified with " + o->name); }
-    ctx.count("key_faults", (int64_t)n);
-  }
   ctx.count("faults_injected", faults);
 }
 
 // texts whose line-ending forms the two entry points may treat differently (lone CR): the same signature over the same bytes must get
 // the same verdict from VerifyData (memory) and Verify (file)
-VF_SUB(sig_text_file_vs_memory, 60, 2000) {
+VF_SUB(sig_text_file_vs_memory, 40, 2000) {
   PGP::MemoryGuardReset();
   Key &k = key_named(ctx.c.coin() ? "rsa2048a" : "eddsa-a"); tmcg_openpgp_hashalgo_t h = TMCG_OPENPGP_HASHALGO_SHA256;
   bool lone_cr = false; Oct data = gen_text_doc(ctx, (size_t)ctx.c.range(1, 300), lone_cr);
@@ -593,7 +583,7 @@ static std::string gen_uid(Ctx &ctx) {
   return u;
 }
 
-VF_SUB(sig_certification_and_key_signatures, 150, 6000) {
+VF_SUB(sig_certification_and_key_signatures, 90, 6000) {
   PGP::MemoryGuardReset();
   std::vector<Key *> sk = signing_keys(); BlockSpec sp; sp.prim = sk[ctx.c.index(sk.size())]; Key &P = *sp.prim;
   static const char *subs[] = {"", "elg2048", "rsa2048e", "ecdh25519", "ecdh256"}; std::string sn = subs[ctx.c.weighted({2, 2, 2, 3, 2})]; if (!sn.empty()) sp.sub = &key_named(sn);
@@ -666,7 +656,7 @@ static Oct with_unhashed(const Oct &pkt, const Oct &uspd) {
   Oct body(b, b + 6 + hl); body.push_back(uspd.size() >> 8); body.push_back(uspd.size()); app(body, uspd); body.insert(body.end(), b + 8 + hl, b + sp[0].body);
   Oct out; PGP::PacketTagEncode(2, out); PGP::PacketLengthEncode(body.size(), out); app(out, body); return out;
 }
-VF_SUB(sig_validity_time_and_weakhash, 700, 25000) {
+VF_SUB(sig_validity_time_and_weakhash, 500, 25000) {
   PGP::MemoryGuardReset();
   std::vector<Key *> sk = signing_keys(); std::vector<Key *> cheap; for (auto k : sk) if (k->verify_ms < 10) cheap.push_back(k);
   Key &k = *cheap[ctx.c.index(cheap.size())]; const std::string A = algo_name(k.algo);
@@ -792,7 +782,7 @@ static bool decrypted_literal_equals(const Oct &dec, const Oct &data) {
   TMCG_OpenPGP_Message *m2 = nullptr; if (!PGP::MessageParse(dec, 0, m2)) return false; bool ok = m2->literal_data == data; delete m2; return ok;
 }
 
-VF_SUB(sym_mdc_roundtrip_and_flips, 260, 10000) {
+VF_SUB(sym_mdc_roundtrip_and_flips, 160, 10000) {
   PGP::MemoryGuardReset();
   std::string lcls; size_t len = pick_plain_len(ctx, lcls); Oct data = gen_binary_doc(ctx, len), lit; PGP::PacketLitEncode(data, lit);
   bool own = ctx.c.prob(2, 5); std::vector<int> cs = usable_ciphers(false); int algo = own ? cs[ctx.c.index(cs.size())] : 9;
@@ -818,7 +808,7 @@ VF_SUB(sym_mdc_roundtrip_and_flips, 260, 10000) {
   if (!M->have_seipd || M->have_sed || M->have_aead || M->encrypted_message != enc) ctx.fail("sym/mdc/parsed-message-differs", d.str());
   { Oct out; if (!M->Decrypt(seskey, 0, out)) { ctx.fail("sym/mdc/untouched-message-refused", "Decrypt refused: " + d.str() + " pkt=" + hexs(pkt, 300)); return; }
     if (out != litmdc) { ctx.fail("sym/mdc/decrypts-to-other-plaintext", d.str()); return; }
-    if (!decrypted_literal_equals(out, data)) ctx.fail("sym/mdc/decrypted-literal-differs", d.str());
+    if (!data.empty() && !decrypted_literal_equals(out, data)) ctx.fail("sym/mdc/decrypted-literal-differs", d.str()); // (the decoder refuses a literal packet without data octets)
     SOct k1(seskey.begin(), seskey.end() - 2); Oct o2; if (!M->Decrypt(k1, 0, o2) || o2 != litmdc) ctx.fail("sym/mdc/key-without-checksum-refused", d.str()); }
   if (ctx.failed) return; int64_t faults = 0;
   // ---- every ciphertext byte (object-level, no parser on altered bytes)
@@ -855,7 +845,7 @@ VF_SUB(sym_mdc_roundtrip_and_flips, 260, 10000) {
 }
 
 // --------------------------------------------------------------------------- encrypted data without integrity protection
-VF_SUB(sed_refused, 150, 5000) {
+VF_SUB(sed_refused, 100, 5000) {
   PGP::MemoryGuardReset();
   std::string lcls; size_t len = pick_plain_len(ctx, lcls); Oct data = gen_binary_doc(ctx, len), lit, enc, prefix; PGP::PacketLitEncode(data, lit); SOct seskey;
   unsigned variant = (unsigned)ctx.c.index(3); static const char *vn[] = {"plain SED (resynchronised CFB)", "SED carrying literal+MDC", "SED after a PKESK"};
@@ -901,7 +891,7 @@ static Oct literal_of_total_length(Ctx &ctx, size_t want, Oct &data) { // litera
   data = gen_binary_doc(ctx, want); Oct lit; PGP::PacketLitEncode(data, lit); return lit;
 }
 
-VF_SUB(sym_aead_roundtrip_and_flips, 260, 10000) {
+VF_SUB(sym_aead_roundtrip_and_flips, 140, 10000) {
   PGP::MemoryGuardReset();
   std::vector<int> modes; if (aead_mode_available(2)) modes.push_back(2); if (aead_mode_available(1)) modes.push_back(1);
   if (modes.empty()) { ctx.count("skipped_no_aead_mode"); ctx.label("skipped"); return; }
@@ -931,7 +921,7 @@ VF_SUB(sym_aead_roundtrip_and_flips, 260, 10000) {
   std::unique_ptr<TMCG_OpenPGP_Message> M(msg);
   if (!M->have_aead || M->encrypted_message != Am.enc || M->iv != Am.iv || M->chunksize != c || M->skalgo != skalgo || M->aeadalgo != aead) ctx.fail("aead/" + Mn + "/parsed-message-differs", d.str());
   { Oct out; if (!M->Decrypt(Am.key, 0, out)) { ctx.fail("aead/" + Mn + "/untouched-message-refused", d.str() + " pkt=" + hexs(Am.pkt, 200)); return; }
-    if (out != lit) { ctx.fail("aead/" + Mn + "/decrypts-to-other-plaintext", d.str()); return; } if (!decrypted_literal_equals(out, data)) ctx.fail("aead/" + Mn + "/decrypted-literal-differs", d.str());
+    if (out != lit) { ctx.fail("aead/" + Mn + "/decrypts-to-other-plaintext", d.str()); return; } if (!data.empty() && !decrypted_literal_equals(out, data)) ctx.fail("aead/" + Mn + "/decrypted-literal-differs", d.str());
     SOct full = session_key(skalgo, from_secure(Am.key)); Oct o2; if (!M->Decrypt(full, 0, o2) || o2 != lit) ctx.fail("aead/" + Mn + "/key-with-checksum-refused", d.str()); }
   if (ctx.failed) return; int64_t faults = 0;
   // All faults are evaluated object-level on altered members of the parsed message, inside a forked child: the pinned AEAD
@@ -1009,7 +999,7 @@ static bool ecdh_point_encoding_slack(const Oct &in, const Span &s, size_t pos, 
   const unsigned char *p = in.data() + s.off + s.hdr; if (s.body < 13 || p[9] != 18) return false; size_t b = pos - s.off - s.hdr, len = ((((size_t)p[10] << 8) | p[11]) + 7) / 8;
   if (b == 12) return true; return cv25519 && b == 12 + len - 1 && mask == 0x80;
 }
-VF_SUB(pkesk_roundtrip, 160, 6000) {
+VF_SUB(pkesk_roundtrip, 90, 6000) {
   PGP::MemoryGuardReset();
   static const char *rk[] = {"rsa2048e", "elg2048", "ecdh25519", "ecdh256"}; Key &k = key_named(rk[ctx.c.weighted({3, 3, 2, 2})]); const std::string A = algo_name(k.algo) + (k.curve.empty() ? std::string("") : "/" + k.curve);
   time_t t = vtime() - 1000; Recipient R; if (!make_recipient(k, t, R)) { ctx.fail("pkesk/" + A + "/library-key-object-bad", k.name); return; }
@@ -1081,7 +1071,7 @@ static bool ref_aead_decrypt(int skalgo, int aead, int c, const Oct &key, const 
   else if (why.empty()) why = "libgcrypt error";
   gcry_cipher_close(hd); return ok;
 }
-VF_SUB(aead_nonce_schedule, 120, 4000) {
+VF_SUB(aead_nonce_schedule, 60, 4000) {
   PGP::MemoryGuardReset();
   std::vector<int> modes; if (aead_mode_available(2)) modes.push_back(2); if (aead_mode_available(1)) modes.push_back(1);
   if (modes.empty()) { ctx.count("skipped_no_aead_mode"); ctx.label("skipped"); return; }
@@ -1146,4 +1136,12 @@ VF_SUB(gpg_cross_check, 12, 400) {
   else { ctx.label("gnupg:skipped"); ctx.count("skipped_gnupg_no_verdict"); ctx.desc << " (no verdict: rc=" << r1 << " " << brief(o1) << ")"; return; }
   if (r2 == 0 || o2.find("GOODSIG") != std::string::npos) ctx.fail("gpg/judge-accepts-altered-document", "the second judge is unusable: " + brief(o2)); else ctx.count("gnupg_agreed_bad");
   if (r3 == 0 || o3.find("GOODSIG") != std::string::npos) ctx.fail("gpg/judge-accepts-altered-signature", "the second judge is unusable: " + brief(o3)); else ctx.count("gnupg_agreed_bad");
+}
+
+// developer aid: cost of fork/exit in the sanitized process (C20_BENCH=1)
+static void bench_fork() {
+  keys(); struct timespec a, b; clock_gettime(CLOCK_MONOTONIC, &a); int n = 30;
+  for (int i = 0; i < n; i++) { pid_t p = fork(); if (p == 0) _exit(0); int st; waitpid(p, &st, 0); }
+  clock_gettime(CLOCK_MONOTONIC, &b); struct rusage ru, rc; getrusage(RUSAGE_SELF, &ru); getrusage(RUSAGE_CHILDREN, &rc);
+  fprintf(stderr, "fork+exit+wait: %.1f ms each; parent sys %.3f s, children sys %.3f s user %.3f s\n", ((b.tv_sec - a.tv_sec) * 1e3 + (b.tv_nsec - a.tv_nsec) / 1e6) / n, ru.ru_stime.tv_sec + ru.ru_stime.tv_usec / 1e6, rc.ru_stime.tv_sec + rc.ru_stime.tv_usec / 1e6, rc.ru_utime.tv_sec + rc.ru_utime.tv_usec / 1e6);
 }
